@@ -12,8 +12,8 @@ Part B (`code_tokens_unchanged` and friends): on the token model of src/nodes/to
 change trivia only; `remove_comments` keeps exactly the comments matched by an `except` pattern
 (`isMatch` is a parameter standing for `Regex::is_match`).
 
-Part C (`append_*_lines*`): the line shift of `append_text_comment`.  With location `end` the rule
-shifts every token just as with `start` (new finding F25), so "no original line moves" is false.
+Part C (`append_*_lines*`): the line shift of `append_text_comment`: for `start` exactly the room the
+comment needs; for `end` none (`append_end_lines_full`, true since F25 is fixed).
 -/
 namespace DarkluaModel.C18
 open Lex
@@ -243,13 +243,14 @@ theorem appendTextComment_code (loc : AppendLocation) (content : Bytes) (f : Fil
   simp only [appendTextComment]
   split
   · rfl
-  · rw [attachComment_code]
-    exact mapTokens_code _ (by intro t; rfl) f
+  · cases loc
+    · simp only [attachComment_code]
+      exact mapTokens_code _ (by intro t; rfl) f
+    · simp only [attachComment_code]
 
-/-- The line numbers after `append_text_comment`: every numbered code token is shifted by
-`lines().count()` of the comment, **whatever the location**. -/
-theorem appendTextComment_lines (loc : AppendLocation) (content : Bytes) (f : File) (h0 : content ≠ []) :
-    (appendTextComment loc content f).codeLines
+/-- Location `start`: every numbered code token is shifted by `lines().count()` of the comment. -/
+theorem appendTextComment_lines (content : Bytes) (f : File) (h0 : content ≠ []) :
+    (appendTextComment .start content f).codeLines
       = f.codeLines.map (Option.map (· + linesCount (commentText content))) := by
   unfold appendTextComment
   simp only [commentText_nonempty content h0, Bool.false_eq_true, ↓reduceIte]
@@ -278,28 +279,21 @@ theorem linesCount_commentText_pos (content : Bytes) (h0 : content ≠ []) :
   · rw [commentText_single content h0 hl]; simp
   · rw [commentText_multi content h0 hl]; simp
 
-/-- "With location `end` no original line moves": full statement. -/
-def append_end_lines_full : Prop :=
-  ∀ (content : Bytes) (f : File), (appendTextComment .end content f).codeLines = f.codeLines
-
-/-- F25: it is false — `print` on line 1, text `x` at the end: the token is moved to line 2. -/
-theorem append_end_lines_full_false : ¬ append_end_lines_full := by
-  intro h
-  have := h [120] ⟨[⟨[112], some 1, [], []⟩], [], none⟩
-  revert this
-  decide
-
-/-- What does hold: only the empty text (rule is a no-op) leaves the lines alone … -/
-theorem append_end_lines_partial (f : File) (content : Bytes) (h : content.isEmpty = true) :
+/-- **append_end_lines_full** (true since the fix of F25): with location `end` no original line moves —
+any text, any file. -/
+theorem append_end_lines_full (content : Bytes) (f : File) :
     (appendTextComment .end content f).codeLines = f.codeLines := by
-  have : content = [] := by simpa using h
-  subst this
-  simp [appendTextComment, commentText]
+  simp only [appendTextComment]
+  split
+  · rfl
+  · exact attachComment_codeLines _ _ _
 
-example : (appendTextComment .end [] sampleFile).codeLines = sampleFile.codeLines :=
-  append_end_lines_partial _ _ rfl
+/-- regression (F25): `p` on line 1, text `x` at the end: the token stays on line 1 -/
+example : (appendTextComment .end [120] ⟨[⟨[112], some 1, [], []⟩], [], none⟩).codeLines = [some 1] := by decide
+example : (appendTextComment .end [120, 10, 121] sampleFile).codeLines = sampleFile.codeLines :=
+  append_end_lines_full _ _
 
-/-- … and for location `start` the shift is exactly what makes room for the comment: the number of
+/-- For location `start` the shift is exactly what makes room for the comment: the number of
 LF in the comment plus the one line break written after it. -/
 theorem append_start_shift (content : Bytes) (h0 : content ≠ []) :
     linesCount (commentText content) = countNl (commentText content) + 1 := by
@@ -330,7 +324,7 @@ theorem append_start_shift (content : Bytes) (h0 : content ≠ []) :
     rw [e]; exact key _ 93 (by decide)
 
 example : (appendTextComment .start [120] sampleFile).codeLines = [some 2, some 2]
-    ∧ (appendTextComment .end [120] sampleFile).codeLines = [some 2, some 2]
+    ∧ (appendTextComment .end [120] sampleFile).codeLines = [some 1, some 1]
     ∧ (appendTextComment .end [120] sampleFile).code = sampleFile.code := by decide
 
 end DarkluaModel.C18
